@@ -73,6 +73,8 @@ def inputs(ctx):
     rnd = [curves.random_curve(rng, 3, 60 if ctx.quick else 200) for _ in range(150 if ctx.quick else 1500)]
     rnd += curves.trace_windows(rng, 8 if ctx.quick else 60, 20, 120, names=("web0_reduced.csv", "usr0.csv", "web2.csv"))
     rnd += [curves.clipped_curve(rng) for _ in range(40 if ctx.quick else 400)]
+    # the same kinds of curves in tiny units on BOTH axes (2^-40, exact): chords far shorter than any absolute epsilon
+    rnd += [curves.random_curve(rng, 3, 40) * 2.0 ** -40 for _ in range(20 if ctx.quick else 200)]
     if not ctx.quick:
         rnd.append(curves.bundled("web0_reduced.csv"))
     for ci, P in enumerate(rnd):
